@@ -214,11 +214,16 @@ def lowerRead (s : St C) (len : Nat) : St C × Int × Bytes :=
     let k := min s.inq.length len
     ({ s with inq := s.inq.drop k }, (k : Int), s.inq.take k)
 
+/-- where `decompression.stream.next_in` points when inflate is called: the rest of an earlier
+    read if there is one (c_len ≠ 0 would then only log an error), else the bytes just read -/
+def decompInput (s : St C) (fresh : Bytes) : Bytes :=
+  match s.inPend with
+  | none => fresh
+  | some p => p
+
 /-- _conn_decompress; `fresh` = the c_len bytes just read into decompression.buffer -/
 def connDecompress (s : St C) (fresh : Bytes) (len : Nat) : St C × Int × Bytes :=
-  let inp := match s.inPend with
-    | none => fresh
-    | some p => p          -- (c_len ≠ 0 here would only log an error)
+  let inp := decompInput s fresh
   let d := C.inflate s.zi inp len
   let n := d.2.1
   let o := d.2.2.1
